@@ -44,15 +44,17 @@ import (
 	"github.com/gogo/protobuf/proto"
 	"github.com/golang/snappy"
 	"github.com/prometheus/prometheus/prompb"
-	prometheuswriter "github.com/siglens/siglens/pkg/integrations/prometheus/ingest"
 	"github.com/siglens/siglens/pkg/config"
 	"github.com/siglens/siglens/pkg/dashboards"
 	eswriter "github.com/siglens/siglens/pkg/es/writer"
+	prometheuswriter "github.com/siglens/siglens/pkg/integrations/prometheus/ingest"
 	"github.com/siglens/siglens/pkg/lookups"
 	"github.com/siglens/siglens/pkg/scroll"
 	"github.com/siglens/siglens/pkg/segment/memory/limit"
 	"github.com/siglens/siglens/pkg/segment/query/processor"
+	"github.com/siglens/siglens/pkg/segment/reader/metrics/tagstree"
 	"github.com/siglens/siglens/pkg/segment/sortindex"
+	sutils "github.com/siglens/siglens/pkg/segment/utils"
 	"github.com/siglens/siglens/pkg/segment/writer"
 	"github.com/siglens/siglens/pkg/segment/writer/metrics"
 	serverutils "github.com/siglens/siglens/pkg/server/utils"
@@ -79,7 +81,7 @@ const c19SID = "0-0-7"
 const c19MID = "0"
 
 var c19PureBuilders = []string{"baseSegDir", "baseVTableDir", "suffixFile", "tagsTreeFile", "dashboardDetails", "scrollResults", "sortIndexFile", "sortIndexFile"}
-var c19RealBuilders = []string{"lookupUpload", "lookupGet", "lookupDelete", "inputlookup", "aliasFile", "mappingFile", "suffixFile", "baseSegDir", "tagsTreeFile"}
+var c19RealBuilders = []string{"lookupUpload", "lookupGet", "lookupDelete", "inputlookup", "aliasFile", "mappingFile", "suffixFile", "baseSegDir", "tagsTreeFile", "tagsTreeRead", "tagsTreeRead"}
 
 // ---------------------------------------------------------------- generator
 
@@ -191,7 +193,7 @@ func c19RealNameRaw(r *rand.Rand, b string) string {
 	joinBased := b == "lookupUpload" || b == "inputlookup" || b == "suffixFile" || b == "baseSegDir"
 	var sb strings.Builder
 	// ups needed to reach the data dir from the directory the name is appended to
-	depth := map[string]int{"lookupUpload": 1, "inputlookup": 1, "lookupGet": 1, "lookupDelete": 1, "aliasFile": 4, "mappingFile": 4, "suffixFile": 2, "baseSegDir": 2, "tagsTreeFile": 5}[b]
+	depth := map[string]int{"lookupUpload": 1, "inputlookup": 1, "lookupGet": 1, "lookupDelete": 1, "aliasFile": 4, "mappingFile": 4, "suffixFile": 2, "baseSegDir": 2, "tagsTreeFile": 5, "tagsTreeRead": 5}[b]
 	k := r.Intn(depth + 1)
 	if r.Intn(2) == 0 {
 		k = depth + r.Intn(3) // data dir itself, one above, sandbox root
@@ -701,8 +703,66 @@ func c19Pure(s *c19Sandbox, b, v string) (string, []PropFail, []string, bool) {
 	return s.acceptLine(p), s.checkBuilt(b, v, p), nil, true
 }
 
+// the READER of the tags tree: the tag key of a tag filter of a metrics query, as the two functions of
+// pkg/segment/reader/metrics/tagstree that build a file name from it see it (overlay hook VerifC19Probe).  A valid (empty)
+// tags tree file is put where baseDir + key points (the code concatenates; every directory on the way is made to exist so
+// that lexical and OS resolution agree); "accepted" = the real code found or opened it.
+func c19RealTagTreeRead(s *c19Sandbox, v string) (string, []PropFail, []string, bool) {
+	const b = "tagsTreeRead"
+	base := metrics.GetFinalTagsTreeDir(c19MID, 0)
+	target := base + v
+	if strings.ContainsRune(v, 0) {
+		return "bad-op", nil, nil, true
+	}
+	if s.inRoot(target) {
+		for _, c := range c19Variants(v) {
+			if !s.inRoot(base + c) {
+				if !utils.IsSimpleFileName(v) {
+					return "reject", nil, []string{"reject", "gate:validator", "decoded-spelling-leaves-sandbox"}, true
+				}
+				return s.acceptLine(target), s.checkBuilt(b, v, target), []string{"not-executed", "decoded-spelling-leaves-sandbox"}, true
+			}
+		}
+	} else {
+		if !utils.IsSimpleFileName(v) {
+			return "reject", nil, []string{"reject", "gate:validator"}, true
+		}
+		return "unsafe", nil, []string{"unsafe"}, true
+	}
+	s.reset()
+	must(os.MkdirAll(base, 0o755))
+	for i := 0; i < len(target); i++ {
+		if target[i] == '/' {
+			if d := filepath.Clean(target[:i+1]); s.inRoot(d) {
+				os.MkdirAll(d, 0o755)
+			}
+		}
+	}
+	ct := filepath.Clean(target)
+	made := false
+	if _, err := os.Lstat(ct); err != nil && !strings.HasSuffix(target, "/") {
+		// version byte + size of the (empty) metadata section: a tags tree without metrics
+		made = os.WriteFile(ct, []byte{sutils.VERSION_TAGSTREE[0], 5, 0, 0, 0}, 0o644) == nil
+	}
+	exists, opened := tagstree.VerifC19Probe(base, v)
+	if made {
+		os.Remove(ct)
+	}
+	tags := []string{"executed"}
+	if opened {
+		tags = append(tags, "opened")
+	}
+	if !exists && !opened {
+		return "reject", nil, append(tags, "reject"), true
+	}
+	return s.acceptLine(target), s.checkBuilt(b, v, target), tags, true
+}
+
 // real operations
 func c19Real(s *c19Sandbox, b, v string) (string, []PropFail, []string, bool) {
+	if b == "tagsTreeRead" {
+		return c19RealTagTreeRead(s, v)
+	}
 	lp := config.GetLookupPath()
 	var target string // where the operation is expected to land (safety decision + preparation only)
 	concat := false   // the code concatenates strings and leaves path resolution to the OS
@@ -844,10 +904,10 @@ func c19Real(s *c19Sandbox, b, v string) (string, []PropFail, []string, bool) {
 	}
 	targetWasDir := false
 	rejected := false
-	canonFrom, canonTo := "", ""  // server-generated id in the observed path → the id the model uses
-	var canonRe *regexp.Regexp    // server-chosen shard/suffix directories → the ones the model uses
-	var effects []c19Change // files the real code touched
-	var readPath string     // file the real code demonstrably read
+	canonFrom, canonTo := "", "" // server-generated id in the observed path → the id the model uses
+	var canonRe *regexp.Regexp   // server-chosen shard/suffix directories → the ones the model uses
+	var effects []c19Change      // files the real code touched
+	var readPath string          // file the real code demonstrably read
 	run := func(op func()) {
 		targetWasDir = c19IsDir(ctarget)
 		before := s.snapshot()
